@@ -5,6 +5,8 @@ from mc import core, det, xstate
 PROPERTY = 'C19'
 ENGINE = 'E2 explicit-state BFS to fixpoint over the real SPFLBArray (canonical state = list contents + closed flag + cached chunk files + directory listing) + all histories up to depth k without dedup'
 LEVEL = 'model_checking'
+DIRECTED_ADDITIONS = 'non-perturbing read-back (cold-cache states), configurations with 12 and 70 chunk files, a full-size value ending in zero bytes, oversized values with a leading zero byte, generator / tuple slice values'      # members added during the seeded-change campaign (DESIGN 7); counted under their own vacuity counters
+
 
 
 def configs(tier):
@@ -27,6 +29,12 @@ def dfs_configs(tier):
 
 
 def describe(tier):
+    d = _describe(tier)
+    d['rule'] = d['rule'] + ' Directed additions: ' + DIRECTED_ADDITIONS + '.'
+    return d
+
+
+def _describe(tier):
     return {
         'rule': 'state = history; canon = (model list, closed flag, set of chunk ids whose file object is cached, directory listing). '
                 'BFS to fixpoint for every configuration (array_len, item_size, items_per_file) with len in %s, item_size in %s, '
